@@ -203,3 +203,101 @@ Definition spec_ok (P : nat) (h : list event) : bool := scan P [] h && final_ok 
     ReadOnlySpan later gives what was delivered. *)
 Definition stable_ok (h : list event) (rereads : list snap) : bool :=
   forallb (fun sn' => forallb (fun e => match e with EvOnEnd _ sn => snap_eqb sn sn' | _ => true end) h) rereads.
+
+(** * Span limits (judged on recorded histories only; the LTS of Model.v has unlimited spans).
+    With a limit the atomicity rule changes shape: SetAttributes keeps a prefix of its attributes
+    until the limit is reached and counts the rest as dropped; events / links beyond the limit evict
+    the oldest (limit 0: nothing is kept).  What stays exact is the accounting: for each kind,
+    present + dropped = the parts offered by the calls that took effect, which lies between the parts
+    offered by calls that returned before the first End was invoked and those offered by calls invoked
+    before the end was visible; and a kind that dropped nothing obeys the unlimited rules. *)
+Record limits := { lim_attr : option nat; lim_event : option nat; lim_link : option nat }.  (* None = unlimited *)
+Record dropped := { d_attr : nat; d_event : nat; d_link : nat }.
+
+Definition lim_of (l : limits) (k : mkind) : option nat :=
+  match k with KAttr => lim_attr l | KEvent => lim_event l | KLink => lim_link l | _ => None end.
+Definition d_of (d : dropped) (k : mkind) : nat :=
+  match k with KAttr => d_attr d | KEvent => d_event d | KLink => d_link d | _ => 0 end.
+Definition dropped_eqb (a b : dropped) : bool :=
+  (d_attr a =? d_attr b) && (d_event a =? d_event b) && (d_link a =? d_link b).
+
+(** Kind and size of the call that produced a part. *)
+Definition call_kind (calls : list event) (m : nat) : option (mkind * nat) :=
+  match find (fun e => match e with EvCall t (OMut _ _) => t =? m | _ => false end) calls with
+  | Some (EvCall _ (OMut k n)) => Some (k, nparts (OMut k n))
+  | _ => None
+  end.
+
+Fixpoint offered (k : mkind) (rets : bool) (evs : list event) : nat :=
+  match evs with
+  | [] => 0
+  | EvCall _ (OMut k' n) :: r => (if negb rets && mkind_eqb k k' then nparts (OMut k' n) else 0) + offered k rets r
+  | EvRet _ (OMut k' n) _ :: r => (if rets && mkind_eqb k k' then nparts (OMut k' n) else 0) + offered k rets r
+  | _ :: r => offered k rets r
+  end.
+
+Definition present_of (calls : list event) (k : mkind) (sn : snap) : list (nat * nat) :=
+  filter (fun x => match call_kind calls (fst x) with Some (k', _) => mkind_eqb k k' | None => false end) (sn_parts sn).
+
+Definition prefix_ok (m n : nat) (ps : list (nat * nat)) : bool :=
+  plist_eqb ps (full m (length ps)) && (length ps <=? n).
+
+(** [exact0]: false for events / links under limit 0, where the SDK's snapshot does not carry the
+    drop count (snapshot() copies droppedCount only when the queue is non-empty). *)
+Definition kind_lim_ok (lims : limits) (d : dropped) (past : list event) (sn : snap) (k : mkind) : bool :=
+  let present := present_of (cut past) k sn in
+  let total := length present + d_of d k in
+  let exact0 := match k, lim_of lims k with KAttr, _ => true | _, Some 0 => false | _, _ => true end in
+  (negb exact0 || (offered k true (pre_end past) <=? total)) && (total <=? offered k false (cut past)) &&
+  match lim_of lims k with
+  | None => d_of d k =? 0
+  | Some L => (length present <=? L) && (negb exact0 || (d_of d k =? 0) || (length present =? L))
+  end &&
+  (* nothing dropped: wholly present or absent, present if returned before End was invoked *)
+  (negb (d_of d k =? 0) || negb exact0 ||
+   (forallb (fun e => match e with
+                      | EvRet m (OMut k' n) _ =>
+                          if mkind_eqb k k' then plist_eqb (parts_of m (sn_parts sn)) (full m (nparts (OMut k' n))) else true
+                      | _ => true end) (pre_end past) &&
+    forallb (fun x => match call_kind (cut past) (fst x) with
+                      | Some (k', n) => if mkind_eqb k k' then plist_eqb (parts_of (fst x) (sn_parts sn)) (full (fst x) n) else true
+                      | None => false end) (sn_parts sn))).
+
+(** Every visible part belongs to a log-type call invoked before the end was visible and the parts
+    of one call form a prefix of what it offered. *)
+Definition shape_ok (past : list event) (sn : snap) : bool :=
+  forallb (fun x => match call_kind (cut past) (fst x) with
+                    | Some (k, n) => is_log k && prefix_ok (fst x) n (parts_of (fst x) (sn_parts sn))
+                    | None => false end) (sn_parts sn).
+
+Definition snap_lim_ok (lims : limits) (d : dropped) (past : list event) (sn : snap) : bool :=
+  shape_ok past sn &&
+  kind_lim_ok lims d past sn KAttr && kind_lim_ok lims d past sn KEvent && kind_lim_ok lims d past sn KLink &&
+  reg_ok KName (sn_name sn) past && reg_ok KStatus (sn_status sn) past &&
+  children_ok past sn && (0 <? sn_et sn).
+
+(** History with the drop counts observed at each OnEnd. *)
+Definition ev_lim_ok (lims : limits) (P : nat) (past : list (event * dropped)) (e : event) (d : dropped) : bool :=
+  let pe := map fst past in
+  match e with
+  | EvOnEnd p sn =>
+      (p <? P) && negb (existsb (is_onend_of p) pe) && has_end_call pe &&
+      forallb (fun x => match fst x with EvOnEnd _ sn' => snap_eqb sn' sn && dropped_eqb (snd x) d | _ => true end) past &&
+      snap_lim_ok lims d pe sn
+  | _ => ev_ok P pe e
+  end.
+
+Fixpoint scan_lim (lims : limits) (P : nat) (past h : list (event * dropped)) : bool :=
+  match h with
+  | [] => true
+  | (e, d) :: r => ev_lim_ok lims P past e d && scan_lim lims P (past ++ [(e, d)]) r
+  end.
+
+Definition spec_lim_ok (lims : limits) (P : nat) (h : list (event * dropped)) : bool :=
+  scan_lim lims P [] h && final_ok P (map fst h).
+
+(** Later re-reads (delivered snapshot, live span) show the same content and the same drop counts. *)
+Definition stable_lim_ok (h : list (event * dropped)) (rereads : list (snap * dropped)) : bool :=
+  forallb (fun r => forallb (fun x => match fst x with
+                                      | EvOnEnd _ sn => snap_eqb sn (fst r) && dropped_eqb (snd x) (snd r)
+                                      | _ => true end) h) rereads.
